@@ -147,7 +147,7 @@ PROPS = {
                      "C13.c13_disabled_family_hostPeer", "C13.c13_disabled_family_eniPolicy", "C13.c13_disabled_family_slaveIPVlan", "C13.c13_disabled_family_eniIPVlan"],
         "rule": "random setup configurations (IPv4 / IPv6 / dual, trunk on/off, default-route on/off, multi-network on/off, 0-2 extra routes of both families with/without gateway, three interface names, link indices 2-31) "
                 "through the eight real configuration generators (policy-route container / host veth / ENI, ipvlan container / slave / ENI, exclusive-ENI container, vlan container) with stub links; the canonicalised nic.Conf "
-                "(addresses, routes with table/gateway/scope/onlink, rules, neighbours, sysctls, strip flag) is compared with the Lean generators. non-trivial = configuration with at least one enabled family field set beyond the address; distinct = distinct op line.",
+                "(addresses, routes with table/gateway/scope/onlink, rules, neighbours, sysctls, strip flag) is compared with the Lean generators. Kernel validation of the FIB semantics (harness/vh/c13fib.go): the real PolicyRoute.Setup / Teardown run against this kernel in private network namespaces (veth pairs stand in for ENIs; 6 quick / 40 thorough scenarios of 2-4 pods on 2 ENIs, optionally a stale rule left by a lost DEL for a re-assigned address, pods torn down in random order); after every step the kernel's `ip rule` dump and `ip route get` answers for to-pod, from-pod and foreign traffic are compared with the Lean FIB model's lookup (lines fib.setup / fib.rules / fib.get / fib.teardown); skipped with a note in the evidence when unshare is not permitted. non-trivial = configuration with at least one enabled family field set beyond the address; distinct = distinct op line.",
         "technique": "Lean 4 theorems over generator models and a small policy-routing (FIB) semantics: lookup characterised by minimal-priority yielding rule + longest prefix; differential correspondence of the generators",
         "level_text": "Theorems, for any number of pods sharing ENIs and all addresses: traffic to a pod address is delivered to that pod's host veth; traffic sourced from a pod leaves through the owning ENI via its gateway (table 1000+ifindex); "
                       "teardown removes exactly the pod's rules and veth routes and nothing of another pod; exactly one main-table default route per enabled family inside the pod (all four container generators); nothing is generated for a disabled family (all eight generators). "
@@ -288,7 +288,7 @@ PROPS["C07"] = {
                  "C07.c07_dispose_worker_retries", "C07.c07_undelivered_reply_unbinds", "C07.c07_release_unbinds", "C07.c07_balance_band"],
     "rule": _PW_RULE + " At the quiescent end of every case (healthy cloud, after a sync) the pool's Status() is compared with the fake cloud: every cloud address/interface is tracked, every tracked valid address is in the cloud, nothing is left marked for deletion, and no address is owned by a pod that does not hold it.",
     "technique": "Lean 4 theorems about every result-consuming region (what a cloud call returns is tracked; nothing is forgotten before the cloud confirmed) and the balancer arithmetic; refinement check of every real lock region plus quiescent-point comparison of pool and fake cloud under injected faults",
-    "level_text": "Theorems: addresses returned by an assign call are tracked whether it reported success (usable) or an error (to hand back); an interface returned with an error is kept in deleting state; failed unassign/delete calls keep what they were about, confirmed ones forget exactly that; the dispose worker only rests when nothing is marked; an undelivered reply un-binds what the request bound; the balancer's surplus/deficit lead exactly to the band. 'Eventually returns to the band' is a liveness statement checked at the quiescent end of each case, not proved: partial.",
+    "level_text": "Theorems: addresses returned by an assign call are tracked whether it reported success (usable) or an error (to hand back); an interface returned with an error is kept in deleting state; failed unassign/delete calls keep what they were about, confirmed ones forget exactly that; the dispose worker only rests when nothing is marked; an undelivered reply un-binds what the request bound; the balancer's surplus/deficit lead exactly to the band. 'Eventually returns to the band' is a liveness statement; it is neither proved nor monitored as such - only the balancer's arithmetic (theorem c07_balance_band) and the correspondence of the pl.bal / pl.usage / pl.bdisp regions cover it: partial.",
     "level_note": "Trusted: Lean kernel; fake cloud honouring the factory contract (an effect is reported back with the error); quiescence detection of the harness (no lock waiter, no gated call, no event for 450 ms).",
     "assumptions": _PW_ASSUME, "trusted_base": _PW_TRUST, "design_ref": "DESIGN.md §4 C07",
     "timeout_quick": 1200, "timeout_thorough": 7200,
